@@ -500,6 +500,20 @@ def fam_c07():
             add("anon-" + tag, [Let("g", Fn(ps, [P(50), Ret(I(n))])), Try([P(ACall(Id("g"), *ops(n, bad)))], "e", [P(60)]), Ret(I(0))])
             if n >= 1:
                 add("defer-" + tag, [fdef, FnStmt("d", [], [Defer(Call("f", *ops(n, bad))), P(40), Ret(I(0))]), Try([E(Call("d"))], "e", [P(60)]), P(61), Ret(I(0))])
+    # a wrong argument count is rejected (constant operands: nothing else to observe), whatever the number of parameters and the call form
+    for n in range(0, 7):
+        ps = ["a%d" % j for j in range(n)]
+        fdef = FnStmt("f", ps, [P(50), Ret(I(n))])
+        for k in (n - 1, n + 1, n + 2):
+            if k < 0:
+                continue
+            args = [I(j + 1) for j in range(k)]
+            add("arity-fn%d-args%d" % (n, k), [fdef, Try([P(Call("f", *args))], "e", [P(60)]), P(61), Ret(I(0))])
+            add("arity-anon-fn%d-args%d" % (n, k), [Let("g", Fn(ps, [P(50), Ret(I(n))])), Try([P(ACall(Id("g"), *args))], "e", [P(60)]), P(61), Ret(I(0))])
+            add("arity-lit-fn%d-args%d" % (n, k), [Try([P(ACall(Fn(ps, [P(50), Ret(I(n))]), *args))], "e", [P(60)]), P(61), Ret(I(0))])
+            add("arity-defer-fn%d-args%d" % (n, k), [fdef, FnStmt("d", [], [Defer(Call("f", *args)), P(40), Ret(I(0))]), Try([E(Call("d"))], "e", [P(60)]), P(61), Ret(I(0))])
+    for k in (0, 1, 3):
+        add("arity-go-fixed-args%d" % k, [Try([P(Call("pv", *[I(j + 1) for j in range(k)]))], "e", [P(60)]), P(61), Ret(I(0))])
     # a Go panic inside the callee (slicing an unaddressable host array): arguments still evaluated once
     for n in range(0, 7):
         ps = ["a%d" % j for j in range(n)]
